@@ -167,5 +167,5 @@ def run(tier):
     # each chain run under parallel tempering: a point installed by an exchange must carry the probability the next
     # accept/reject decision of the receiving chain needs (trace-validated real runs with forced exchanges)
     from harness import c03
-    c03.pt_part(ck, tier)
+    c03.pt_part(ck, tier, unforced=True)
     return ck.finish()
